@@ -108,7 +108,8 @@ Proof.
 Qed.
 
 (* ------------------------------------------------------------------ trees over simple branches *)
-Definition op_counted (k : setk) (all : bool) : Prop := all = false \/ k = KUnion.
+(* every operator is computed as defined since 432d38e: no condition on the operators any more *)
+Definition op_counted (k : setk) (all : bool) : Prop := True.
 
 Theorem tree_correct : forall widths db t,
   db_wf widths db = true -> tree_ok (leaf_simple widths) op_counted t ->
@@ -127,24 +128,21 @@ Proof.
     destruct IHl as [al [Hal Hbl]]. destruct IHr as [ar [Har Hbr]].
     destruct (setop_defined bl br); [|exact I].
     cbn [impl_tree]. rewrite Hal, Har. eexists. split; [reflexivity|].
-    eapply bag_eq_trans; [apply impl_op_congr; eassumption|]. apply impl_op_correct. exact Hq.
+    eapply bag_eq_trans; [apply impl_op_congr; eassumption|]. apply impl_op_correct.
 Qed.
 
 (* ------------------------------------------------------------------ chains *)
 Lemma chain_class0 : forall c, chain_class c = 0%Z ->
   leaf_has_sub (fst c) = false /\ forallb (fun o => negb (leaf_has_sub (snd o))) (snd c) = true /\
-  same_reading c = true /\ forallb (fun o => negb (is_all_ie o)) (snd c) = true.
+  same_reading c = true.
 Proof.
   intros c H. unfold chain_class in H.
   destruct (leaf_has_sub (fst c)) eqn:E1; cbn [orb] in H; [discriminate|].
   destruct (existsb (fun o => leaf_has_sub (snd o)) (snd c)) eqn:E2; [discriminate|].
   destruct (same_reading c) eqn:E3; cbn [negb] in H; [|discriminate].
-  destruct (existsb is_all_ie (snd c)) eqn:E4; [discriminate|].
   repeat split; try reflexivity.
-  - rewrite forallb_forall. intros o Ho. destruct (leaf_has_sub (snd o)) eqn:E; [|reflexivity].
-    assert (existsb (fun o => leaf_has_sub (snd o)) (snd c) = true) by (apply existsb_exists; eauto). congruence.
-  - rewrite forallb_forall. intros o Ho. destruct (is_all_ie o) eqn:E; [|reflexivity].
-    assert (existsb is_all_ie (snd c) = true) by (apply existsb_exists; eauto). congruence.
+  rewrite forallb_forall. intros o Ho. destruct (leaf_has_sub (snd o)) eqn:E; [|reflexivity].
+  assert (existsb (fun o => leaf_has_sub (snd o)) (snd c) = true) by (apply existsb_exists; eauto). congruence.
 Qed.
 
 Lemma leaf_wf_simple : forall widths q, leaf_wf widths q = true -> leaf_has_sub q = false -> leaf_simple widths q.
@@ -158,18 +156,16 @@ Theorem chain_correct : forall widths db (c : chain),
   agree (impl_stmt widths db c) (qeval db [] (chain_qry c)).
 Proof.
   intros widths db [q0 l] Hwf Hst Hne Hcl. cbn [snd] in Hne.
-  destruct (chain_class0 _ Hcl) as [Hs0 [Hsl [Hsame Hall]]]. cbn [fst snd] in *.
+  destruct (chain_class0 _ Hcl) as [Hs0 [Hsl Hsame]]. cbn [fst snd] in *.
   unfold stmt_wf in Hst. cbn [fst snd] in Hst. destruct l as [|o l]; [congruence|].
   apply andb_true_iff in Hst. destruct Hst as [Hw0 Hwl].
   unfold impl_stmt, chain_qry. cbn [fst snd]. rewrite (same_reading_sound _ Hsame).
   assert (Hok : tree_ok (leaf_simple widths) op_counted (parse_right (q0, o :: l))).
   { unfold parse_right. apply parse_right_ok.
     - apply leaf_wf_simple; assumption.
-    - rewrite Forall_forall. intros x Hx. rewrite forallb_forall in Hwl, Hsl, Hall.
-      specialize (Hwl x Hx). specialize (Hsl x Hx). specialize (Hall x Hx).
-      apply negb_true_iff in Hsl. apply negb_true_iff in Hall. split.
-      + unfold op_counted. destruct x as [[k all] q]. cbn [fst snd is_all_ie] in *. destruct k, all; auto; discriminate.
-      + apply leaf_wf_simple; assumption. }
+    - rewrite Forall_forall. intros x Hx. rewrite forallb_forall in Hwl, Hsl.
+      specialize (Hwl x Hx). specialize (Hsl x Hx).
+      apply negb_true_iff in Hsl. split; [exact I|]. apply leaf_wf_simple; assumption. }
   pose proof (tree_correct widths db _ Hwf Hok) as H.
   destruct (qeval db [] (qry_of_tree (parse_right (q0, o :: l)))) as [b| |]; cbn [agree]; [exact H|exact I|contradiction].
 Qed.
